@@ -103,7 +103,7 @@ static int family_lanes(void)
                         cuts[ncuts][0] = 4; cuts[ncuts][1] = 9 < N ? 9 : N - 1; ncuts++;
                 }
                 for (int ci = 0; ci < ncuts; ci++)
-                for (int tight = 0; tight < 2; tight++)
+                for (int tight = 0; tight < 3; tight++)        /* 2: tight command buffer next to a configured event buffer of size 0 */
                 for (int gd = -1; gd < 3; gd++, idx++) {
                         if (idx % SW.nshards != SW.shard) continue;
                         int ngr = 1 + (cuts[ci][0] < N) + (cuts[ci][1] < N);
@@ -122,7 +122,8 @@ static int family_lanes(void)
                         if (gd >= 0) W.grp_disable[gd] = 1;
                         int cap = (N + 3) / 4;
                         if (cap < 6) cap = 6;
-                        sw_caps(cap + (tight ? 0 : 3), tight);
+                        sw_caps(cap + (tight ? 0 : 3), tight == 1);
+                        if (tight == 2) W.ubuf_size = 0;
                         W.line_max = 40; W.mon = P_ALL;
                         world_build();
                         snprintf(SW.extra, sizeof SW.extra, "family=lanes N=%d cuts=%d,%d disabled-group=%d cap=%d", N, cuts[ci][0], cuts[ci][1], gd, W.cap);
